@@ -232,7 +232,7 @@ PROPS = {
         "assumptions": ["element and time copy/move construction, assignment and destruction do not throw and copy the element identity "
                         "(window kernels); operator new does not fail"],
         "not_decided": ["TSD published/modified bits, TSL/TSB delta bits (not yet under contract)",
-                        "TimeTSWindowStorage::push / SizeTSWindowStorage::push as compositions of the proved core operations",
+                        
                         "nested TSD-of-TSD coherence", "stable_slot_store growth (slot identity)"],
     },
     "C19": {
